@@ -639,6 +639,9 @@ class RSCF(SCF):
         self._atoms.occ.fill()
         if not self._atoms.is_built:
             self._atoms = self._atoms.build()
+        # The pseudopotential data and the local potential depend on the atoms, update them
+        if hasattr(self, "_pot"):
+            self._update_pot()
 
 
 class USCF(SCF):
@@ -662,3 +665,6 @@ class USCF(SCF):
         self._atoms.occ.fill()
         if not self._atoms.is_built:
             self._atoms = self._atoms.build()
+        # The pseudopotential data and the local potential depend on the atoms, update them
+        if hasattr(self, "_pot"):
+            self._update_pot()
